@@ -289,7 +289,8 @@ def map_faults(ctx, i):
     consumers = [ns for ns in inner["nodes"] if any(p["n"] == over for p in ns["params"])]
     victim = rng.choice(consumers)
     vfid = victim["fid"]
-    mkind = rng.choice(EXC_KINDS)
+    mkind = EXC_KINDS[ctx.obs["map_fault_cases"] % len(EXC_KINDS)]  # every class in turn, not by chance
+    ctx.obs["map_fault_cases"] += 1
     excs = {it: make_exc(mkind, f"boom on {it}") for it in items}
     case = {"inner": inner, "over": over, "items": items, "bad": sorted(bad_items), "victim": vfid}
 
